@@ -3,6 +3,10 @@ EXTENDS Iface
 M3 == ("i1" :> {"A", "b", "C"} @@ "i2" :> {"A", "b", "C"} @@ "j1" :> {"Z"})
 M1 == ("i1" :> {"A", "b", "C"})
 M1h == ("i1" :> {"A", "C"})
+\* l1, l2: variables of two function-local interface types that share package path and name; "Beta" sits at slot 1 of
+\* the first (Alpha, Beta) and at slot 0 of the second (Beta, Gamma)
+M5 == ("i1" :> {"A", "b", "C"} @@ "i2" :> {"A", "b", "C"} @@ "j1" :> {"Z"} @@ "l1" :> {"Alpha", "Beta"} @@ "l2" :> {"Beta", "Gamma"})
+ML == ("l1" :> {"Alpha", "Beta"} @@ "l2" :> {"Beta", "Gamma"})
 M2 == ("i1" :> {"A", "b", "C"} @@ "i2" :> {"A", "b", "C"})
 AllOps == {"Mock", "Reset", "Drop", "GC", "Call"}
 HeldOps == {"Mock", "Held", "Reset", "Call"}
